@@ -191,6 +191,9 @@ func (ip *Interp) fmtOne(fr *frame, verb byte, spec string, a Iface) Value {
 		}
 		return "%!" + string(verb) + "(<nil>)"
 	}
+	if verb == 'w' {
+		verb = 'v' // Errorf's %w prints like %v (the wrapped chain is not kept: errors.Is/As on the result are not modelled)
+	}
 	// methods first (error, then Stringer) for the string-ish verbs
 	switch verb {
 	case 'v', 's', 'q', 'x', 'X':
@@ -234,6 +237,17 @@ func (ip *Interp) fmtOne(fr *frame, verb byte, spec string, a Iface) Value {
 				return numSeg(t, 16, false, 0, false)
 			case verb == 'b' && spec == "":
 				return numSeg(t, 2, signed, 0, false)
+			case (verb == 'o' || verb == 'x' || verb == 'X' || verb == 'b' || verb == 'd') && (spec == "" || len(spec) == 2 && spec[0] == '0' && spec[1] >= '1' && spec[1] <= '9'):
+				// zero-padded / other bases: non-negative values only (the sign would count towards the width)
+				if signed && ip.ex.Branch(ip.ts.Cmp(OpSlt, t, Const(w, 0))) {
+					ip.ex.endPath("unsupported", "padded or non-decimal verb on a negative symbolic value")
+				}
+				mw := 0
+				if spec != "" {
+					mw = int(spec[1] - '0')
+				}
+				base := map[byte]int{'o': 8, 'x': 16, 'X': 16, 'b': 2, 'd': 10}[verb]
+				return numSeg(t, base, false, mw, verb == 'X')
 			case verb == 'q' || verb == 'U' || verb == 'c':
 				return opaqueStr("fmt%"+spec+string(verb), t)
 			}
